@@ -12,6 +12,7 @@ import Drivers.SchedD
 import Drivers.SessHbD
 import Drivers.F8cD
 import Drivers.SessD
+import Drivers.FramerD
 import Drivers.MpmcD
 
 def main (args : List String) : IO UInt32 := do
@@ -34,4 +35,5 @@ def main (args : List String) : IO UInt32 := do
   | ["f8c"] => Drivers.loop stdin () (fun _ l => ((), Drivers.F8cD.step l)); return 0
   | ["sess"] => Drivers.loop stdin (Drivers.SessD.init true) Drivers.SessD.step; return 0
   | ["sessbase"] => Drivers.loop stdin (Drivers.SessD.init false) Drivers.SessD.step; return 0
+  | ["framer"] => Drivers.loop stdin () (fun _ l => ((), Drivers.FramerD.step l)); return 0
   | _ => IO.eprintln "usage: driver <stream>"; return 2
